@@ -44,15 +44,17 @@ def norm_msg(s):
     return re.sub(r"\b[a-z_][a-z0-9_]*\b", repl, s)
 
 
-def apply(cx, rules, tag=None):
-    """Quick tier: the stable-like dev and release configurations (debug assertions compiled in / out: a side effect
+def apply(cx, rules, tag=None, only=None):
+    """`only`: rule -> predicate on the obligation key; restricts a rule to the instances that are a necessary
+    condition of the property it is attached to (e.g. R-WS-ORDER for the delimiter-deciding modes only).
+    Quick tier: the stable-like dev and release configurations (debug assertions compiled in / out: a side effect
     hidden in a debug_assert!, or a release-only fast path, changes the paths).  Thorough tier: also macro_sep."""
     tags = [tag] if tag else (["dev-none-stable", "rel-none-stable"] if cx.tier != "thorough" else ["dev-none-stable", "rel-none-stable", "dev-msep-stable"])
     for t in tags:
-        _apply_one(cx, rules, t)
+        _apply_one(cx, rules, t, only or {})
 
 
-def _apply_one(cx, rules, tag):
+def _apply_one(cx, rules, tag, only):
     d = lea_results(cx, tag)
     panic_tab = _load("panic_sites.json")["entries"]
     ierr_tab = _load("internal_error_sites.json")["entries"]
@@ -68,6 +70,8 @@ def _apply_one(cx, rules, tag):
                          "LEA has no transfer function for construct '%s' in %s (fail-closed)" % (u[1], u[0]))
     for o in d["obs"]:
         if o["rule"] not in rules:
+            continue
+        if o["rule"] in only and not only[o["rule"]](o["key"]):
             continue
         ok, detail = o["ok"], o["detail"]
         if not ok and o["rule"] == "R-PANIC":
@@ -95,7 +99,7 @@ def _apply_one(cx, rules, tag):
         cx.ob(o["rule"], o["key"], ok, o["site"], detail + (" [modes: %s]" % ",".join(o.get("modes", [])[:4])))
     per_rule_keys = {}
     for o in d["obs"]:
-        if o["rule"] in rules:
+        if o["rule"] in rules and (o["rule"] not in only or only[o["rule"]](o["key"])):
             per_rule_keys.setdefault(o["rule"], set()).add(o["key"])
     for rule, ks in per_rule_keys.items():
         cx.count(rule, "keys", max(len(ks), cx.counts.get(rule, {}).get("keys", 0)))
